@@ -277,9 +277,9 @@ pub fn want_for(cmds: &[Cmd], stdin: &[u8], budget: u64, cap: usize) -> (Want, u
     let p = reflang::preflight(cmds, stdin, budget, cap, false);
     let n = cmds.len() as u64;
     match &p.halt {
-        Halt::Ended(End::End) => (Want::Status0, p.safe_steps + 102 * n + 20),
-        Halt::Ended(End::Exit(c)) => (Want::ProgramExit(*c), p.safe_steps + 102 * n + 20),
-        Halt::Ended(End::Encoding(_)) | Halt::Ended(End::InputEncoding) => (Want::Diagnosed, p.safe_steps + 102 * n + 20),
+        Halt::Ended(End::End) => (Want::Status0, p.safe_steps + 2002 * n + 50),
+        Halt::Ended(End::Exit(c)) => (Want::ProgramExit(*c), p.safe_steps + 2002 * n + 50),
+        Halt::Ended(End::Encoding(_)) | Halt::Ended(End::InputEncoding) => (Want::Diagnosed, p.safe_steps + 2002 * n + 50),
         _ => (Want::AnyDefined, p.safe_steps.max(1)),
     }
 }
